@@ -166,6 +166,18 @@ func (s *sim) descValue(d Desc) refobj.Value {
 		return s.w.ObjectLiteral(ps)
 	}
 	if len(d.Inh) == 0 {
+		if d.Rd {
+			var ps []refobj.LiteralProp
+			for _, f := range d.Own {
+				v := s.val(f.V)
+				fn := s.w.NewFunction("Rd:"+f.F, func(w *refobj.World, this refobj.Value, args []refobj.Value) (refobj.Value, *refobj.Throw) {
+					return v, nil
+				})
+				fn.Tag = "fn"
+				ps = append(ps, refobj.LiteralProp{Name: f.F, Kind: "get", V: refobj.ObjV(fn)})
+			}
+			return refobj.ObjV(s.w.ObjectLiteral(ps))
+		}
 		return refobj.ObjV(lit(d.Own))
 	}
 	// __inh(p, own): d = Object.create(p); for (k in own) d[k] = own[k]
